@@ -525,7 +525,7 @@ def memHandle (toks : List String) : String :=
     | _, _, _ => "bad-op"
   | _ => "bad-op"
 
-def handle (toks : List String) : String :=
+def handle1 (toks : List String) : String :=
   match toks with
   | "mem" :: _ => memHandle toks
   | "mems" :: _ => memHandle toks
@@ -626,6 +626,48 @@ def handle (toks : List String) : String :=
     | none => "bad-op"
   | ["det0"] => toString (Mat.det (⟨fromArray #v[]⟩ : Mat 0 0))
   | _ => "bad-op"
+
+/-! ## digests of systematic families of the lines above (`refine` in props/c14.py turns a differing digest into the single line) -/
+
+def enumTrits (n idx : Nat) : List Int := (List.range n).map fun j => Int.ofNat ((idx / 3 ^ j) % 3) - 1
+
+def digestOf (lines : List (List String)) : String :=
+  let r := lines.foldl (fun (acc : Option UInt64) toks =>
+    match acc with
+    | none => none
+    | some h => let s := handle1 toks; if s = "bad-op" then none else some (fnv h s)) (some fnvInit)
+  match r with
+  | some h => "D " ++ hex64 h
+  | none => "bad-op"
+
+/-- * `vecs K LR n ia` — the `vec` lines of `a` = vector number `ia` over {-1,0,1,2}^n with **every** `b` ∈ {-1,0,1,2}^n
+      (`k = (ia + ib) % 7 - 3`, `i = (ia + 2 ib) % (n + 2)`)
+    * `crs LR ia`      — the `cross` lines of `a` = vector number `ia` with every `b` ∈ {-1,0,1,2}^3
+    * `sqs M a`        — the `sq` lines of the 243 3×3 matrices over {-1,0,1} whose last four entries are number `a` < 81
+    * `mvs MM VM a`    — the `mv` lines of the 2×3 matrix number `a` < 4096 over {-1,0,1,2} with every `v` ∈ {-1,0,1,2}^3 -/
+def handle (toks : List String) : String :=
+  match toks with
+  | ["vecs", kind, lr, n, ia] =>
+    match parseDim 1 4 n, ia.toNat? with
+    | some n, some ia =>
+      if ia < 4 ^ n then
+        digestOf ((List.range (4 ^ n)).map fun ib =>
+          ["vec", kind, lr, toString n, showL (enumA n ia), showL (enumA n ib), toString ((Int.ofNat ((ia + ib) % 7)) - 3), toString ((ia + 2 * ib) % (n + 2))])
+      else "bad-op"
+    | _, _ => "bad-op"
+  | ["crs", lr, ia] =>
+    match parseDim 0 63 ia with
+    | some ia => digestOf ((List.range 64).map fun ib => ["cross", lr, showL (enumA 3 ia), showL (enumA 3 ib)])
+    | none => "bad-op"
+  | ["sqs", mm, a] =>
+    match parseDim 0 80 a with
+    | some a => digestOf ((List.range 243).map fun lo => ["sq", mm, "3", showL (enumTrits 5 lo ++ enumTrits 4 a)])
+    | none => "bad-op"
+  | ["mvs", mm, vm, a] =>
+    match parseDim 0 4095 a with
+    | some a => digestOf ((List.range 64).map fun iv => ["mv", mm, vm, "2", "3", showL (enumA 6 a), showL (enumA 3 iv)])
+    | none => "bad-op"
+  | _ => handle1 toks
 
 def main : IO Unit := Proto.run handle
 
